@@ -69,6 +69,8 @@ pub fn execute_program(
     let stack = vec![0u8; ebpf::STACK_SIZE];
     let mut stacks = [StackFrame::new(); MAX_CALL_DEPTH];
     let mut stack_frame_idx = 0;
+    #[cfg(feature = "verif-hooks")]
+    crate::verif_hooks::on_start(&stack, mem, mbuff);
 
     // R1 points to beginning of memory area, R10 to stack
     let mut reg: [u64; 11] = [
@@ -118,6 +120,10 @@ pub fn execute_program(
     // Loop on instructions
     let mut insn_ptr: usize = 0;
     while insn_ptr * ebpf::INSN_SIZE < prog.len() {
+        #[cfg(feature = "verif-hooks")]
+        if !crate::verif_hooks::on_insn(insn_ptr) {
+            return Err(Error::other("Error: verif-hooks instruction budget exhausted"));
+        }
         let insn = ebpf::get_insn(prog, insn_ptr);
         if stack_frame_idx < MAX_CALL_DEPTH
             && let Some(usage) = stack_usage.stack_usage_for_local_func(insn_ptr) {
